@@ -14,16 +14,18 @@ CONFIG = {'level': 'proof',
                  '(Model/Agc3.lean) reading the same bytes (counters decoder_eq_input, decoder_violations_empty)',
                  'catalogue plumbing (names, descriptor tables, batches) is C03; the container is C13; FASTA parsing and '
                  'letter<->code mapping are C16/C19',
-                 'end to end: Model/Writer.lean is a whole-archive reference writer with all compressor decisions as data; '
-                 'the C02 harness shows every real archive is an instance (byte identity). Proved for ALL well-formed '
-                 'decisions (DecisionsOK), k >= 1, inputs over the literal codes: pieces_tile, read_write_samples (the decoder\'s '
-                 'last stage returns all samples with catalogue = catalogueOf inp, bases = basesOf inp, no violation, from '
-                 'the catalogue tables and the group table), read_write_bases (from the '
-                 'group table the decoder builds - Props.C02.group_roundtrip - decodeContig on the registered descriptors '
-                 'returns every contig\'s bases and no violation), on top of Props.C02.container_returns_every_part and '
-                 'read_write_segments. The final theorem read_write (decodeArchive (writeArchive ..) = ok d, catalogue, '
-                 'bases, violations = []) is NOT proved: the missing glue (directory analysis, catalogue batches, folds over '
-                 'groups and samples) is listed at the end of Props/C01.lean and covered by the correspondence runs only',
+                 'END TO END: Model/Writer.lean is a whole-archive reference writer with all compressor decisions as data '
+                 '(Decisions) and a decidable DecisionsOK; the C02 harness shows every real archive is an instance (the '
+                 'decisions read off the archive make it reproduce the file byte for byte). Theorem read_write: for every '
+                 'cfg/inp/dec with DecisionsOK (k >= 1; k, min_match, segment_size u32 with segment_size + k <= 2^31; u32 '
+                 'counts; names over bytes 1..127; contigs non-empty and < 4 GiB; piece lengths tile each contig with '
+                 'k-overlaps; distinct u32 group ids, 1..2^31-2 members per group; pieces and groups point at each other), '
+                 'codesOK inp, any zc/zd with the two C12 facts: writeArchive cfg inp dec zc = some bs -> exists d, '
+                 'decodeArchive bs zd = ok d /\\ d.catalogue = catalogueOf inp /\\ d.bases = basesOf inp /\\ d.violations = []. '
+                 'All decisions are quantified (tiling incl. splits, group and orientation per piece, arrival order per '
+                 'group, group creation order, tuple flags). No k >= 3 bound: the independent decoder has no 2-bit-packed '
+                 'heuristic. Non-vacuity: a 2-sample input with an LZ group (reference + real delta) and a raw group, '
+                 'evaluated (the statement writeArchive .. isSome by decide +kernel, a closed evaluation of the model)',
                  'ZSTD enters the theorems as a pair zc/zd with zd (zc l x) = some x and non-empty frames (hypotheses '
                  'of C12); codes are assumed inside the LZ literal range (ragc produces 0..15 and 30: '
                  'Props.C09.ragc_codes_ok)'],
@@ -40,15 +42,17 @@ MANIFEST = {'category': 'proof',
          'against any reference: write then read = identity); contig_roundtrip (main theorem: for every contig, k >= 1, '
          'splitter predicate, every list of split decisions, every vector of orientation flags and storage forms: '
          'segment (C10), split, orient, store, read back, undo orientation, reconstruct_contig = the contig). This is '
-         'the composition C10 + C09 + C12 + C07 + C02(unpack_pack) for the bases of a contig. About the whole-archive '
-         'reference writer (Model/Writer.lean, every compressor decision is data, DecisionsOK decidable): pieces_tile, '
-         'read_write_samples (all samples: catalogue and bases equal the input, no violation) and '
-         'read_write_bases (all decisions: the decoder returns the bases of every contig from the descriptors the writer '
-         'registers, no violation), composing Props.C02.read_write_segments / group_roundtrip; the full read_write is not '
-         'finished (missing glue listed in Props/C01.lean). The end-to-end '
-         'composition with the real writer (its decisions and its registration of pieces) is tied by running create '
-         'then extract on every generated sample set (oracle extract == input) and the independent Lean decoder on '
+         'the composition C10 + C09 + C12 + C07 + C02(unpack_pack) for the bases of a contig. END-TO-END theorem read_write about the '
+         'whole-archive reference writer (Model/Writer.lean, every compressor decision is data, DecisionsOK decidable): '
+         'for all well-formed decisions, inputs over the literal codes and any ZSTD pair with the two C12 facts, the '
+         'independent decoder applied to the bytes of writeArchive returns exactly the input catalogue and the bases of '
+         'every contig, with an empty list of breached format rules (decode o write = id); stages pieces_tile, '
+         'read_write_bases, read_write_samples here and read_write_container / _catalogue / _groups in Props/C02. The '
+         'reference writer is tied to the REAL writer by the C02 run (byte identity on every generated archive with the '
+         'decisions read off that archive); in addition create then extract is run '
+         'on every generated sample set (oracle extract == input) and the independent Lean decoder on '
          'the same archive bytes.',
  'design_ref': 'DESIGN.md §5 C01',
- 'technique': 'Lean 4 proof of the layered round trip with quantified writer decisions + end-to-end oracle on generated '
+ 'technique': 'Lean 4 proof of the layered round trip and of the end-to-end theorem decode o write = id for a reference writer '
+              'with quantified decisions (tied to the real writer by byte identity in C02) + end-to-end oracle on generated '
               'archives + independent decoder run'}
